@@ -109,14 +109,15 @@ type c14Run struct {
 
 func runC14(e *Env) {
 	x := &c14Run{e: e, st: newC14Stats()}
-	e.R.Rule = "(a) seeded scripts of 4-8 clients x <=40 ops (Create/GetByJoinCode/Delete/Count) run concurrently against session.Store with join codes overridden to a 16-value space; a history counts when >= 2 operations of different clients overlapped in time (distinct by script hash); TTL-50ms rounds judged by brackets; " +
-		"(b) rounds against the real thruserv (fresh server per round) = (limit configuration, scenario, burst size, prefill/variant); a round counts when it reached its verdict (distinct by that tuple)"
+	e.R.Rule = "(a) seeded scripts of 4-8 clients x <=40 ops (Create/GetByJoinCode/Delete/Count) run concurrently against session.Store with join codes overridden to a 16-value space; a history counts when >= 2 operations of different clients overlapped in time (distinct by script hash); TTL-50ms rounds judged by brackets; collision histories (scripted shapes + seeded random) on a Store with a 50 ms lifetime where a Create's first drawn code belongs to a live / expired-unreaped / expired-looked-up / reaped session and the harness reaps the old holder, a history counts when >= 1 lookup got a must-find / must-fail verdict (distinct by shape / by op list); " +
+		"(b) rounds against the real thruserv (fresh server per round) = (limit configuration, scenario, burst size, prefill/variant); a round counts when it reached its verdict (distinct by that tuple); includes join-code collision rounds (dictated draws, holder state) and first-burst rounds (fresh source addresses whose very first requests are a start-barrier burst)"
 	x.partStore()
 	x.partStoreExpiry()
+	x.partStoreCollide()
 	x.partServer()
 
 	// samples: one per kind first, so that the few kept ones are diverse
-	order := []string{"history", "store-expiry", "sessions", "receivers", "hostleft", "expiry", "msgsize", "msgrate", "wsconns", "iprate", "rate-ws-msgs", "rate-session-creates", "rate-ws-connects"}
+	order := []string{"history", "store-expiry", "store-collision", "collide", "first-burst-session-creates", "first-burst-ws-connects", "sessions", "receivers", "hostleft", "expiry", "msgsize", "msgrate", "wsconns", "iprate", "rate-ws-msgs", "rate-session-creates", "rate-ws-connects"}
 	for pass := 0; pass < 2; pass++ {
 		for _, k := range order {
 			if len(x.st.samples[k]) > pass {
@@ -903,6 +904,23 @@ func (x *c14Run) partServer() {
 	e.R.Require(x.st.get("hostleft:joins_after_point") >= 20, "too few joins started after the host-left point")
 	e.R.Require(x.st.get("expiry:must_admit") >= 6 && x.st.get("expiry:must_refuse") >= 6, "expiry brackets decided too little")
 	e.R.Require(x.st.get("zero:rounds") >= 6, "too few rounds with a limit at 0")
+	// join-code collisions inside the real server: every holder state was reached and judged
+	if only == "" || strings.Contains(","+only+",", ",collide,") {
+		for _, v := range c14CollVariants {
+			e.R.Require(x.st.get("collide:decided:"+v) >= 1, fmt.Sprintf("no decided collide round with history %s", v))
+		}
+		e.R.Require(x.st.get("collide:holder_past_lifetime_and_unreaped_confirmed(second draw taken)") >= 2, "collide rounds: the window between lifetime over and reaped was hit fewer than 2 times")
+	}
+	// per-address limiters under concurrent first requests of fresh addresses
+	if only == "" || strings.Contains(only, "rate-first-") {
+		for _, kind := range []string{"rate-first-sess", "rate-first-ws"} {
+			if only != "" && !strings.Contains(","+only+",", ","+kind+",") {
+				continue
+			}
+			d, sh := x.st.get("first-burst:"+kind+":addresses_decided"), x.st.get("first-burst:"+kind+":addresses_sharp(rate*window<1)")
+			e.R.Require(d >= 400 && sh >= d*3/4, fmt.Sprintf("%s: %d fresh addresses with a decided first burst, %d of them tight enough for one request too many to show", kind, d, sh))
+		}
+	}
 	// rate limiters: every limiter saw every idle class, and at least two over-bursts after a long idle
 	// period were tight enough (rate*window <= burst/2) for an over-admission of one burst to show
 	if only == "" || strings.Contains(only, "rate-") {
@@ -938,7 +956,14 @@ func (x *c14Run) decided(r c14Round) {
 func (x *c14Run) runRound(r c14Round) {
 	e := x.e
 	e.R.Eval()
-	srv, err := c14StartServer(e, r.Cfg.flags())
+	var plan *c14Plan
+	var env []string
+	if r.Kind == "collide" {
+		plan = newC14Plan(e, r)
+		env = plan.env()
+		defer os.Remove(plan.path)
+	}
+	srv, err := c14StartServerEnv(e, r.Cfg.flags(), env)
 	if err != nil {
 		e.R.Inconcl(fmt.Sprintf("%s %s: server start: %v", r.ID, r.key(), err))
 		return
@@ -961,6 +986,8 @@ func (x *c14Run) runRound(r c14Round) {
 		x.roundRateWS(r, srv)
 	case "rate-first-sess", "rate-first-ws":
 		x.roundRateFirst(r, srv)
+	case "collide":
+		x.roundCollide(r, srv, plan)
 	case "msgsize":
 		x.roundMsgSize(r, srv)
 	case "msgrate":
